@@ -304,7 +304,8 @@ def main():
         undecided += downgraded
         results[mode] = {'report': report, 'lm': lm, 'res': res, 'failures': failures, 'undecided': undecided,
                          'compile_errors': compile_errors, 'path': out, 'text': open(out).read(), 'vacuity': vac}
-    code = finish(prop, a.tier, seed, results, t_start)
+    extra = thorough_extras(prop, seed, results) if a.tier == 'thorough' else None
+    code = finish(prop, a.tier, seed, results, t_start, extra)
     for mode in results:
         for ext in ('', '.report.json', '.linemap.json'):
             try:
@@ -372,11 +373,86 @@ def vacuity_run(mode, prop, tag):
             'wall_s': round(res['wall_s'], 1)}
 
 
+def replay_bin():
+    b = subprocess.run(['cargo', 'build', '--release', '--offline', '-q'], cwd=os.path.join(VERIF, 'replay'),
+                       capture_output=True, text=True, timeout=1800, env=dict(os.environ, CARGO_NET_OFFLINE='true'))
+    if b.returncode != 0:
+        return None, b.stderr[-400:]
+    return os.path.join(VERIF, 'replay', 'target', 'release', 'ats-replay'), None
+
+
+def thorough_extras(prop, seed, results):
+    """thorough tier only: (a) a second solver seed (stability note), (b) the histories of every fixed finding of this
+    property replayed on the real code (a history that fails again is a concrete violation), (c) a longer randomized
+    witness search with the property's executable oracle on the real code (exploration, labelled as such),
+    (d) the assumption audit of the trusted base against the real dependency crates (a mismatch is exit 2)."""
+    rep = {}
+    undecided, hits = [], []
+    # (a) other solver seed on the lenient file
+    r = results.get('lenient')
+    if r and not r['failures'] and not r['compile_errors']:
+        res2 = run_verus(r['path'], ['--smt-option', 'smt.random_seed=%d' % ((seed or 1) * 7919 % 100000)])
+        f2, u2, c2 = classify(res2['diags'], r['lm'], r['path'])
+        vj = (res2['json'] or {}).get('verification-results', {})
+        rep['second_seed'] = {'verified': vj.get('verified'), 'errors': vj.get('errors'), 'wall_s': round(res2['wall_s'], 1),
+                              'note': 'failures on the extra seed are a stability note, not a verdict',
+                              'unstable': sorted(set((x.get('label') or x.get('function') or '?') for x in f2 + u2))}
+    # (b) + (c) need the replay tool built against the current tree
+    binp, err = replay_bin()
+    if binp is None:
+        rep['replay'] = {'skipped': 'replay tool does not build against the current tree: %s' % err}
+    else:
+        hist = []
+        for k in load_known():
+            if k.get('status') == 'fixed' and (k.get('property') == prop or prop in k.get('also', [])):
+                h = os.path.join(VERIF, k['history'])
+                p = subprocess.run([binp, 'run', h, '--quiet'], capture_output=True, text=True, timeout=600)
+                hist.append({'finding': k['id'], 'history': k['history'], 'exit': p.returncode})
+                if p.returncode == 3:
+                    hits.append(h)
+                elif p.returncode != 0:
+                    undecided.append('replay of %s could not run (exit %d)' % (k['history'], p.returncode))
+        rep['fixed_histories_replayed'] = hist
+        oracle = ORACLES.get(prop)
+        if oracle:
+            rdir = os.path.join(VERIF, 'replays', prop)
+            os.makedirs(rdir, exist_ok=True)
+            sr = []
+            for profile in ('default', 'convertible', 'fees', 'nonlot', 'markers'):
+                out = os.path.join(rdir, 'search_%s_%s.json' % (oracle, profile))
+                try:
+                    p = subprocess.run([binp, 'search', '--oracle', oracle, '--seed', str(seed or 1), '--iters', '6000',
+                                        '--profile', profile, '--out', out], capture_output=True, text=True, timeout=1200)
+                except subprocess.TimeoutExpired:
+                    sr.append({'profile': profile, 'result': 'timeout'})
+                    continue
+                last = (p.stdout.strip().split('\n') or [''])[-1]
+                sr.append({'profile': profile, 'result': last})
+                if p.returncode == 1 and os.path.exists(out):
+                    hits.append(out)
+            rep['witness_search_on_real_code'] = {'oracle': oracle, 'kind': 'randomized exploration, not proof', 'runs': sr}
+    # (d) assumption audit
+    audit = os.path.join(VERIF, 'audit', 'run.sh')
+    if os.path.exists(audit):
+        try:
+            p = subprocess.run(['bash', audit, str(seed or 1), '20000'], capture_output=True, text=True, timeout=3000)
+            tail = [l for l in p.stdout.split('\n') if l.strip()][-25:]
+            rep['assumption_audit'] = {'exit': p.returncode, 'summary': tail,
+                                       'kind': 'testing of the trusted base against the real crates, never counted as proof'}
+            if p.returncode == 1:
+                undecided.append('assumption audit: an assumed dependency contract disagrees with the real crate (see coverage.thorough.assumption_audit)')
+            elif p.returncode != 0:
+                rep['assumption_audit']['note'] = 'audit could not run: ' + p.stderr[-300:]
+        except subprocess.TimeoutExpired:
+            rep['assumption_audit'] = {'skipped': 'timeout'}
+    return {'report': rep, 'undecided': undecided, 'real_hits': hits}
+
+
 def relevant(props, prop):
     return prop in props or '*' in props
 
 
-def finish(prop, tier, seed, results, t_start):
+def finish(prop, tier, seed, results, t_start, extra=None):
     known = [k for k in load_known() if k.get('property') == prop]
     known_labels = {k['label']: k for k in known if k.get('status') == 'known'}
     violations, known_hits, undecided_msgs = [], [], []
@@ -459,11 +535,21 @@ def finish(prop, tier, seed, results, t_start):
         'wall_s': round(wall, 1),
         'violations': len(violations),
     }
+    real_hits = []
+    if extra:
+        ev['coverage']['thorough'] = extra['report']
+        undecided_msgs += extra['undecided']
+        real_hits = extra['real_hits']
+        ev['violations'] = len(violations) + len(real_hits)
     if undecided_msgs and not violations:
         ev['coverage']['undecided'] = undecided_msgs[:10]
     json.dump(ev, open(os.path.join(VERIF, 'evidence', '%s.json' % prop), 'w'), indent=1)
     for base, k in known_hits:
         log('KNOWN-FINDING: property=%s %s %s' % (prop, base, k.get('what_fails', '')))
+    for hit in real_hits:
+        log('VIOLATION property=%s replay=%s' % (prop, hit))
+    if real_hits and not violations:
+        return 1
     if violations:
         rdir = os.path.join(VERIF, 'replays', prop)
         os.makedirs(rdir, exist_ok=True)
